@@ -168,7 +168,7 @@ def main(argv=None):
         for cid, st in ledger.items():
             if st == 'thorough' and tier != 'thorough':
                 continue
-            if cid not in per_clause:
+            if cid not in per_clause and '/side:' not in cid:
                 # the contract may have ended early (exception/unsupported) -- already reported then
                 owner = cid.split('/')[0]
                 if not any(owner in u for u in undecided) and not any(owner == v[0].split('/')[0] for v in violations) \
